@@ -4303,6 +4303,7 @@ mod macros {
         ($self:expr, $op:ident, $op_rhs:ident, $trait_fn:ident, $trait_fn_rhs:ident, $map:expr, $lhs:expr, $rhs:expr, $result_register:expr) => {{
             let op = $map.get_meta_value(&$op.into()).unwrap();
             let old_frame_count = $self.call_stack.len();
+            let old_register_count = $self.registers.len();
 
             // Call the map's op function
             $self.call_overridden_op_2(
@@ -4322,10 +4323,16 @@ mod macros {
             // - Enable the execution barrier on the function's frame so errors aren't propagated
             $self.frame_mut().execution_barrier = true;
             match $self.execute_instructions() {
-                Ok(result) => result,
+                Ok(result) => {
+                    // The frame was popped at an execution barrier, which leaves its registers in
+                    // place, so they need to be discarded here.
+                    $self.registers.truncate(old_register_count);
+                    result
+                }
                 Err(error) => {
                     // Pop the frame given that an error has been thrown
                     $self.pop_frame(KValue::Null)?;
+                    $self.registers.truncate(old_register_count);
                     // Check for a `koto.unimplemented` error
                     let ErrorKind::KotoError { thrown_value, .. } = &error.error else {
                         // A non-unimplemented error was thrown, so propagate it
